@@ -421,11 +421,46 @@ def steps_file(rng, mode):
     return public
 
 
+class Rewinder(object):
+    """a user-defined iterator whose __iter__ is not free of effects: it rewinds the cursor and counts the passes (the iterator
+    protocol allows that; tape-like and cursor-like objects do it)"""
+
+    def __init__(self, *items):
+        self.items = list(items)
+        self.pos = 0
+        self.rewinds = 0
+
+    def __iter__(self):
+        self.pos = 0
+        self.rewinds += 1
+        return self
+
+    def __next__(self):
+        if self.pos >= len(self.items):
+            raise StopIteration
+        self.pos += 1
+        return self.items[self.pos - 1]
+
+
+def steps_rewinder(rng, mode):
+    v = plain_small(rng)
+
+    def nxt(o, e):
+        try:
+            return next(o)
+        except StopIteration:
+            return "stop"
+    return [("list", lambda o, e: list(o)), ("next", nxt), ("next_of_iter", lambda o, e: nxt(iter(o), e)), ("tuple", lambda o, e: tuple(o)),
+            ("in", lambda o, e: v in o), ("sorted_repr", lambda o, e: sorted(map(repr, o))), ("zip", lambda o, e: list(zip(o, range(2)))),
+            ("for_break", lambda o, e: [x for x, _ in zip(o, range(1))]), ("iter_is_self", lambda o, e: iter(o) is o)]
+
+
 def steps_cls_shadowed(rng, mode):
     return [("meta_len", lambda o, e: len(o)), ("meta_contains", lambda o, e: "m" in o)]
 
 
 KINDS = {
+    "rewinder": (lambda rng: Rewinder(*[plain_small(rng) for _ in range(rng.randrange(0, 5))]), steps_rewinder),
     "cls_shadowed": (lambda rng: Vec, steps_cls_shadowed),
     "list": (lambda rng: [plain_small(rng) for _ in range(rng.randrange(0, 6))], steps_list),
     "dict": (lambda rng: {hashable_small(rng): plain_small(rng) for _ in range(rng.randrange(0, 5))}, steps_dict),
@@ -487,6 +522,8 @@ def snapshot(kind, obj):
         return ("dictview", sorted(map(repr, obj)))
     if kind in ("cls", "cls_shadowed"):
         return sorted(k for k in obj.__dict__ if not k.startswith("__"))
+    if kind == "rewinder":
+        return ("rewinder", obj.pos, obj.rewinds, len(obj.items))
     if kind == "vec":
         return (view(obj), obj.entered, sorted(k for k in obj.__dict__), getattr(obj, "eq_calls", 0))
     if kind == "file":
